@@ -30,7 +30,7 @@ def run(res, prop="C08"):
     res.assumptions = ["which statements are ignored is computed in the harness by an independent transcription of context.rs (directive comments in leading trivia; start/end state per block; single-statement ignore)",
                        "statements are located by full_moon's byte positions in input and in re-parsed output"]
     for e in known_findings(prop):
-        key = {"F-C09-anonymous-function": "known_anonymous-function", "F-C09-end-position": "known_end-position"}.get(e.get("id"))
+        key = {"F-C09-anonymous-function": "known_anonymous-function", "F-C09-end-position": "known_end-position", "F-C09-collapsed-parent": "known_collapsed-parent"}.get(e.get("id"))
         if key and tot.get(key, 0) > 0: res.known.append("%s (%d statements in this run)" % (e["what"], tot[key]))
     if not proof["ok"] or not tie_ok:
         if bads:
